@@ -741,7 +741,7 @@ impl Gen {
                 Op::Symlink { l: self.arg(l, m, rng), t: self.hostile_or(t, rng) }
             },
             "set_cwd" => {
-                let p = self.p_target(m, rng, Some(&[K::Dir]));
+                let p = self.p_target(m, rng, Some(&[K::Dir, K::LinkD]));
                 Op::SetCwd { p: self.arg(p, m, rng) }
             },
             "chmod" => {
